@@ -934,6 +934,9 @@ func main() {
 	if o.Shard == 4%o.Shards && core.Want("moderation-vs-group-switch") {
 		res.AddSub(seqx.Explore(switchConfig(), res))
 	}
+	if o.Shard == 6%o.Shards && core.Want("whip-session-token") {
+		res.AddSub(whipSessionCheck(res))
+	}
 	if o.Shard == 5%o.Shards && core.Want("moderation-vs-group-switch") {
 		res.AddSub(seqx.Explore(dupConfig(), res))
 	}
@@ -975,6 +978,17 @@ func replay(path string) {
 		os.Exit(2)
 	}
 	r := a.Replay
+	if r.Sub == "whip-session-token" {
+		rs := &core.Result{Property: "C11"}
+		whipSessionCheck(rs)
+		sig.Cleanup()
+		if len(rs.Violations) > 0 {
+			fmt.Printf("VIOLATION property=C11 replay=%s\n  signature: %s\n  %s\n", path, rs.Violations[0].Signature, rs.Violations[0].What)
+			os.Exit(1)
+		}
+		fmt.Println("replay: no violation")
+		return
+	}
 	if r.Config == switchConfig().Name || r.Config == dupConfig().Name {
 		defer sig.Cleanup()
 		w := swFresh().(*sworld)
